@@ -431,7 +431,7 @@ class Rig:
         proxy._pyroMaxRetries = retries
         proxy._pyroRawWireResponse = bool(raw)
         proxy._pyroSeq = seq0 % 65536
-        self.batch = None
+        self.batch, self.batch_uses = None, 0
         net.sends = 0
         sid = "c03-feed"
 
@@ -535,9 +535,12 @@ class Rig:
         if kind in "bB":
             # one BatchProxy object serves every batch of the history (its call list is cleared by each submit);
             # after a submit that raised the calls stay queued by design, so a new object is taken then
+            # (and after BATCH_REUSE submits, which bounds the request size should a submit ever fail to clear)
             b = self.batch
-            if b is None:
+            if b is None or self.batch_uses >= BATCH_REUSE:
                 b = self.batch = client.BatchProxy(proxy)
+                self.batch_uses = 0
+            self.batch_uses += 1
             for i in range(BATCH):
                 b.run(tok, i)
             try:
@@ -561,6 +564,7 @@ class Rig:
 
 
 BATCH = 3
+BATCH_REUSE = 4
 
 
 def content_identity(value, exc):
